@@ -149,10 +149,48 @@ def o_roundtrip(rec: Recorder, case, soft=False):
         if not (a == b == exp):
             rec.fail(f"C15/tokens-differ/{fmt}", "object loaded back generates different codes", "roundtrip", case, [a, b], exp, soft=soft)
             return
+    if fmt == "uri" and before["issuer"] and "issuer=" in ser:
+        # the older provisioning form carries the issuer only as the label prefix ("Issuer:account", no issuer= parameter): same configuration
+        head, _, query = ser.partition("?")
+        legacy = head + "?" + "&".join(p for p in query.split("&") if not p.startswith("issuer="))
+        st, old_style = call(F.from_uri, legacy)
+        if st == "err" or _state(old_style) != after:
+            rec.fail("C15/uri-label-prefix-issuer", "a provisioning URI whose issuer appears only as the label prefix does not load with that issuer", "roundtrip", dict(case, legacy=legacy),
+                     repr(old_style)[:100] if st == "err" else _state(old_style), after, soft=soft)
+            return
     if fmt != "uri" and case.get("secrets"):
         d = json.loads(ser) if isinstance(ser, str) else ser
         if "key" in d or "enckey" not in d:
             rec.fail("C15/wallet-not-used", "application secrets configured but the serialised key is not encrypted", "roundtrip", case, sorted(d), "enckey", soft=soft)
+            return
+        # encrypt=False is the documented way to export the plain key from such a factory (for transfer to a party without the secret)
+        from passlib.totp import TOTP
+
+        plain = otp.to_json(encrypt=False) if fmt == "json" else otp.to_dict(encrypt=False)
+        dp = json.loads(plain) if isinstance(plain, str) else plain
+        if "enckey" in dp or "key" not in dp:
+            rec.fail(f"C15/encrypt-false-ignored/{fmt}", "to_json/to_dict(encrypt=False) still wraps the key with the application secret", "roundtrip", case, sorted(dp), "key", soft=soft)
+            return
+        G0 = _factory(dict(case, secrets=None))  # the same configuration WITHOUT the secret
+        st, other = call(G0.from_source, plain)
+        if st == "err" or _state(other) != _state(otp):
+            rec.fail(f"C15/plain-export-not-loadable/{fmt}", "the encrypt=False export does not load (with the same configuration) under a factory without the secret", "roundtrip", case, repr(other)[:120], before, soft=soft)
+            return
+    # handing the OBJECT to another factory transfers the configuration and the plain key, whatever secrets either side has
+    from passlib.totp import TOTP as _T
+
+    G0 = _factory(dict(case, secrets=None))
+    for G in (G0, G0.using(secrets={"9": "another-application-secret"})):
+        if getattr(G, "wallet", None) is not None:
+            install_standin_aes()
+        st, moved = call(G.from_source, otp)
+        want = _state(otp)
+        if st == "err" or (G.wallet is not None and not isinstance(moved, G)) or _state(moved) != want:
+            rec.fail("C15/object-transfer", "from_source(<TOTP object of another factory>) fails or changes the configuration", "roundtrip", case, repr(moved)[:160], want, soft=soft)
+            return
+        if moved.generate(TIMES[0]).token != otp.generate(TIMES[0]).token:
+            rec.fail("C15/object-transfer", "the transferred object generates other codes", "roundtrip", case, None, None, soft=soft)
+            return
 
 
 @oracle(PROPERTY, "corrupt")
